@@ -160,6 +160,8 @@ def dictionary(start_id):
     for eaci in (False, True):
         add([variant("Fmt", ser=["json"], ts="JSON", aci=0), variant("Other", ser=["yaml"], ts="YAML"), variant("Third", ser=["toml"], ts="TOML", aci=1),
              variant("Plain", ser=["ini", "INI."])], aci=eaci)
+    # more variants than a byte counts
+    add([variant("Name%d" % k, aci=(1 if k % 50 == 3 else 2), dis=(k % 97 == 11)) for k in range(300)], style="kebab-case")
     # empty enum, single variant
     add([])
     add([variant("Only")])
